@@ -65,11 +65,16 @@ type ctlRig struct {
 // newCtlRig builds a controller.  core == nil selects race mode (collaborators
 // without shared state).
 func newCtlRig(core *kit.Core, srv *kit.Server, period time.Duration, F *kit.Term) (*ctlRig, error) {
+	ctx, cancel := context.WithCancel(context.Background())
+	return newCtlRigCtx(core, srv, period, F, ctx, cancel)
+}
+
+// newCtlRigCtx: same with a context supplied by the caller (e.g. a kit.TrigCtx).
+func newCtlRigCtx(core *kit.Core, srv *kit.Server, period time.Duration, F *kit.Term, ctx context.Context, cancel context.CancelFunc) (*ctlRig, error) {
 	var log logutil.Log = kit.NullLog{Yield: true}
 	if core != nil {
 		log = kit.NewLog(core)
 	}
-	ctx, cancel := context.WithCancel(context.Background())
 	b := kcache.NewBuilder().Context(ctx).Log(log).Client(srv)
 	if F != nil {
 		b = b.Filter(F.Build())
